@@ -993,6 +993,9 @@ def child(v, idx):
         return v.entries[idx]
     if isinstance(v, Closure):
         return v.captures[idx]
+    if isinstance(v, Ref) and idx == 0:
+        # Box<T> -> Unique<T> -> NonNull<T> -> *const T : single-field pointer wrappers
+        return v
     raise EngineError('projection .%r into %r' % (idx, v))
 
 
